@@ -158,7 +158,7 @@ def _connect_one(ctx: Ctx, c: Collector) -> None:
           "; ".join(sorted(set(pr_eff)))[:500] if pr_eff else f"{len(effects)} effects, none fires in a rejected row", loc)
     for tb in ("input_delays", "successors", "output_request", "entity_graph", "triggers", "pulled_inputs", "output_to_push", "outputs", "persistent_inputs"):
         pr = pr_tab.get(tb, [])
-        c.add("table", CONNECT_ONE, f"entries of {tb}", VIOLATED if pr else DISCHARGED, "; ".join(sorted(set(pr)))[:500], loc)
+        c.add(f"table/{tb}", CONNECT_ONE, f"entries of {tb}", VIOLATED if pr else DISCHARGED, "; ".join(sorted(set(pr)))[:500], loc)
 
     # the delay: connect_interval(src_group, dest_group, int(time_shifted), int(weak)) evaluated before every effect
     sg = ("attr", ("attr", mm_s, "_factory"), "_group")
